@@ -23,7 +23,7 @@ import (
 func init() {
 	core.Register(&core.Prop{
 		ID: "C16",
-		Rule: "case = one shapefile of 0-60 (300 thorough) records of one geometry kind (Point, MultiPoint, LineString, MultiLineString of 1-6 parts, Polygon of 1-5 closed or unclosed rings, *Bounds, nil geometry) with 1-6 attribute columns (int within ten characters, float whose %.10f fits 30 characters, NUL-free string of 0-50 bytes: ASCII, UTF-8, internal blanks, tabs; leading/trailing blanks as their own category) in random column order, written through NewEncoder/Encode with a reflect-built archetype struct (shp tags and bare mixed-case names; 15% of schemas with >= 2 columns have a crossed pair: each field tagged with the other's lower-cased name and the same struct read back, so the tag must win over the name) or NewEncoderFromFields/EncodeFields, and read back through DecodeRow (struct with differently-cased names/tags) or DecodeRowFields; oracle = the list of records written; " +
+		Rule: "case = one shapefile of 0-60 (300 thorough) records of one geometry kind (Point, MultiPoint, LineString, MultiLineString of 1-6 parts, Polygon of 1-5 closed or unclosed rings, *Bounds, nil geometry) with 1-6 attribute columns (int within ten characters, float whose %.10f fits 30 characters, NUL-free string of 0-50 bytes: ASCII, UTF-8, internal blanks, tabs; leading/trailing blanks as their own category) in random column order, written through NewEncoder/Encode with a reflect-built archetype struct (shp tags and bare mixed-case names; 15% of schemas with >= 2 columns have a crossed pair: each field tagged with the other's lower-cased name and the same struct read back, so the tag must win over the name) or NewEncoderFromFields/EncodeFields, and read back through DecodeRow (struct with differently-cased names/tags, the geometry field at a random position; 35% of the files alternate row by row between two record types with different field order through one Decoder) or DecodeRowFields; oracle = the list of records written; " +
 			"an evaluation is one record compared; non-trivial = file with >= 2 records and >= 2 columns; distinct by content hash",
 		Assumptions: []string{"coordinates are finite bit patterns compared bitwise", "documented images: LineString -> one-part MultiLineString, unclosed ring -> closed, *Bounds -> 5-vertex rectangle", "files are written to a per-run scratch directory under /verif/.build and removed"},
 		Phases: []core.Phase{{Name: "files", NumCases: func(t string) int {
@@ -35,7 +35,7 @@ func init() {
 		Run: run,
 		Floors: func(t string) map[string]int64 {
 			return map[string]int64{"api.struct": 100, "api.fields": 100, "kind.Point": 20, "kind.MultiPoint": 20, "kind.LineString": 20, "kind.MultiLineString": 20, "kind.Polygon": 20, "kind.*Bounds": 20,
-				"records.compared": 3000, "string.last_column": 50, "string.with_edge_blanks": 200, "ring.unclosed": 200, "file.empty": 3, "column.string": 100, "column.int": 100, "column.float": 100, "string.at_field_width": 20, "schema.crossed_tags_and_names": 30}
+				"records.compared": 3000, "string.last_column": 50, "string.with_edge_blanks": 200, "ring.unclosed": 200, "file.empty": 3, "column.string": 100, "column.int": 100, "column.float": 100, "string.at_field_width": 20, "schema.crossed_tags_and_names": 30, "decode.alternating_record_types": 50}
 		},
 	})
 }
@@ -452,17 +452,43 @@ func run(c *core.Ctx, idx int) {
 			return
 		}
 		defer d.Close()
-		var decT reflect.Type
+		var decT, decT2 reflect.Type
 		if structAPI {
-			fs := []reflect.StructField{{Name: "Geom", Type: reflect.TypeOf((*geom.Geom)(nil)).Elem()}}
-			for _, col := range cols {
-				f := reflect.StructField{Name: col.decName, Type: goType(col.kind)}
-				if col.decTag != "" {
-					f.Tag = reflect.StructTag(`shp:"` + col.decTag + `"`)
+			// two record types for the same file: the columns in a different order, the geometry
+			// field at a different position, and (second type) one field no attribute matches;
+			// 35% of the files are read alternating between the two, row by row, through one Decoder
+			mk := func(order []int, geomAt int, extra bool) reflect.Type {
+				var fs []reflect.StructField
+				gf := reflect.StructField{Name: "Geom", Type: reflect.TypeOf((*geom.Geom)(nil)).Elem()}
+				for pos, k := range order {
+					if pos == geomAt {
+						fs = append(fs, gf)
+					}
+					col := cols[k]
+					f := reflect.StructField{Name: col.decName, Type: goType(col.kind)}
+					if col.decTag != "" {
+						f.Tag = reflect.StructTag(`shp:"` + col.decTag + `"`)
+					}
+					fs = append(fs, f)
 				}
-				fs = append(fs, f)
+				if geomAt >= len(order) {
+					fs = append(fs, gf)
+				}
+				if extra {
+					fs = append(fs, reflect.StructField{Name: "ZzNoSuchAttribute", Type: reflect.TypeOf(0)})
+				}
+				return reflect.StructOf(fs)
 			}
-			decT = reflect.StructOf(fs)
+			id := make([]int, len(cols))
+			for i := range id {
+				id[i] = i
+			}
+			decT = mk(id, r.Intn(len(cols)+1), false)
+			decT2 = decT
+			if r.Chance(0.35) {
+				decT2 = mk(r.Perm(len(cols)), r.Intn(len(cols)+1), r.Bool())
+				c.Count("decode.alternating_record_types")
+			}
 		}
 		names := make([]string, len(cols))
 		for i, col := range cols {
@@ -476,7 +502,11 @@ func run(c *core.Ctx, idx int) {
 			var g geom.Geom
 			got := make([]interface{}, len(cols))
 			if structAPI {
-				pv := reflect.New(decT)
+				dt := decT
+				if n%2 == 1 {
+					dt = decT2
+				}
+				pv := reflect.New(dt)
 				if !d.DecodeRow(pv.Interface()) {
 					break
 				}
